@@ -440,6 +440,10 @@ def run(ctx: Ctx):
     r_backend(ctx, js)
     r_lookup(ctx, model)
     r_lookup_shapes(ctx, model, js)
+    # the aliases of an adsorbate loaded from a database file: every stored alias row comes back (shared with C08 D-read)
+    from .C08 import r_lists, setup as setup_store
+    model8, mach = setup_store(ctx.root)
+    r_lists(ctx, model8, mach, prop="C20", rule="G-lookup", kinds=("adsorbate",))
     r_getters(ctx, model)
     ctx.extra["exhaustive"] = True
     ctx.analysed["adsorbates"] = len(js)
